@@ -280,6 +280,17 @@ func c04SprintArgs(args []interface{}) string {
 	return ""
 }
 
+var starFormats = []string{"a %*d z%s", "a %.*d z%s", "a %*.*d z%s", "a %-*x z%s", "a %+*.*f z%s", "a %[1]*d z%s"}
+
+func starOperands() []interface{} {
+	var r []interface{}
+	for _, n := range []int64{0, 1, -1, 7, -7, 999999, 1000000, 1000001, -1000000, -1000001, 1<<31 - 1, -1 << 31, 1 << 31, 1<<63 - 1, -1 << 63, -1<<63 + 1} {
+		r = append(r, int(n), n)
+	}
+	r = append(r, int8(-128), int16(300), int32(-5), uint(3), uint8(255), uint16(70), uint32(1<<32-1), uint64(1<<64-1), uint64(1<<63), uintptr(9), namedInt(4), "str", 2.5, nil, true)
+	return r
+}
+
 func checkC04(c *Ctx) {
 	u := fmtUniverse()
 	sp := quickDirectives()
@@ -344,6 +355,21 @@ func checkC04(c *Ctx) {
 		}
 		if dt != "" {
 			w.Fail("sizes:"+sizeShapes[sh].Name, map[string]interface{}{"N": n, "Shape": sh}, dt)
+		}
+	})
+	// the whole interesting domain of star operands (width and precision), all integer types
+	so := starOperands()
+	c.Section("C04/star-operands", map[string]interface{}{"operands": len(so), "formats": len(starFormats)}, len(so)*len(so), func(i int, w *Worker) {
+		a, b := so[i/len(so)], so[i%len(so)]
+		for _, f := range starFormats {
+			w.Eval()
+			args := []interface{}{a, b, 5, "tail" + mStart}
+			if strings.Count(f, "*") == 1 {
+				args = []interface{}{a, 5, "tail" + mStart}
+			}
+			if dt := c04Compare(f, args, w.SeenS); dt != "" {
+				w.Fail("star-operands", map[string]interface{}{"F": f, "A": fmt.Sprintf("%T(%v)", a, a), "B": fmt.Sprintf("%T(%v)", b, b)}, dt)
+			}
 		}
 	})
 	md := midDirectives()
